@@ -3,11 +3,19 @@ from oracledefs import wal
 
 WAL = Comp('wal', n_quick=400, n_thorough=12000, oracle=wal.wal_oracle, nontrivial=wal.wal_nontrivial, stats=wal.wal_stats)
 
+from oracledefs import walconc
+WALCONC = Comp('walconc', n_quick=24, n_thorough=600, oracle=walconc.walconc_oracle, nontrivial=walconc.walconc_nontrivial, stats=walconc.walconc_stats,
+               differential=False, shrink=False)
+
 reg(Prop('C09', 'Kevo.Props.C09',
          facts=['consts:wal.*', 'facts:wal.*'],
-         components=[WAL],
+         components=[WAL, WALCONC],
          fact_tags=['wal'],
-         rule='component wal: random programs of append/batch/rotate/reopen/replay/from over the real pkg/wal and the Lean '
+         rule='component walconc (implementation only): 2..8 goroutines append to ONE log at once (single operations up to several fragments, '
+              'batches, Sync/GetEntriesFrom callers in between); afterwards the replay must yield every appended operation exactly once, intact, '
+              'under the number Append returned, the numbers increasing in file order (the model is sequential: what it ties is the log\'s own '
+              'mutex, i.e. that concurrent callers are served as SOME sequence of appends). '
+              'component wal: random programs of append/batch/rotate/reopen/replay/from over the real pkg/wal and the Lean '
               'model (Kevo.Model.Wal/WalLog); compared: returned sequence numbers and error classes, the bytes of every log '
               'file, ReplayWALDir and GetEntriesFrom output; sizes at -2..+2 of k*MaxRecordSize, keys spilling over the first '
               'fragment, empty keys/values, unknown op codes, batches beyond the record limit; oracle: replay == appended '
